@@ -3,11 +3,15 @@
    level S >= 0, shipment lead time L >= 0, no order lead time, external supplier, started at S, undisrupted, and for
    EVERY demand sequence and horizon, the end-of-period inventory level is S minus the demand of the last L periods
    (the "window"), the on-order quantity is that lead-time demand, and the period cost is h (S - D)^+ + p (D - S)^+ —
-   i.e. the newsvendor cost function evaluated at the realised lead-time demand D. Taking expectations (i.i.d. demand)
-   gives the newsvendor cost for demand over L periods; that step, the ergodic convergence of the time average, the
-   (s,S) and serial-system (SSM) analogues and the confidence band are NOT theorems: they are decided by a statistical
-   run (batch means, band sized for a false-alarm probability below 1e-6), reported in the evidence as search. *)
-From SV Require Import Sim.Model Sim.Single.
+   i.e. the newsvendor cost function evaluated at the realised lead-time demand D.
+   The EXPECTATION step is proved too (Sim/NVExpect.v) for i.i.d. demand with any finite pmf: the expectation, over the
+   product distribution of the whole horizon, of the simulator model's period-t cost (window full) equals
+   nvd_cost h p S (L-fold convolution of the pmf) — the analytical model of newsvendor_discrete (Alg/NVDiscrete.v, C10) applied
+   to the lead-time-demand pmf of the DemandSource model (Alg/Gen.v conv_pow, C16); and the newsvendor level minimises it.
+   NOT theorems: the ergodic convergence of the time average, continuous (normal) demand, the (s,S) and serial-system (SSM)
+   analogues and the confidence band: they are decided by a statistical run (batch means, band sized for a false-alarm
+   probability below 1e-6), reported in the evidence as search. *)
+From SV Require Import Base.Qx Alg.Gen Alg.NVDiscrete Sim.Model Sim.Single Sim.NVExpect.
 
 Section C15.
 Variables (S h p : Q) (L : nat).
@@ -25,7 +29,38 @@ Theorem C15_window_is_lead_time_demand : forall ds w t, (t < length ds)%nat ->
   nth t (windows w ds) [] = skipn (Datatypes.S t) (w ++ firstn (Datatypes.S t) ds).
 Proof. exact windows_nth. Qed.
 
-Definition long_run_average_statement : Prop := True (* time average of the period cost -> E[h (S-D_L)^+ + p (D_L-S)^+] almost surely; (s,S) and SSM analogues: not provable about code; statistical search only *).
+(* expectation over independent demands with pmf [pm] on the values off, off+1, ...: iterated sums, not via convolution *)
+Theorem C15_law_of_lead_time_demand : forall L off pm g,
+  expect_sum L off pm g == wsum (fun k => g (L * off + k)%nat) 0 (conv_pow L pm).
+Proof. exact expect_sum_conv. Qed.
+Theorem C15_expected_newsvendor_cost : forall L off pm h p (S : Z),
+  expect_sum L off pm (nv_g h p (inject_Z S)) == nvd_cost h p S (pmf_of_list (L * off) (conv_pow L pm)).
+Proof. exact expect_newsvendor. Qed.
+(* the simulator model's period cost as a function of the natural-number demand sequence (any disruption flags dss) *)
+Theorem C15_period_cost_pathwise : forall (lv h p : Q) (L : nat) dss t (ds : list nat),
+  0 <= lv -> length dss = length ds -> (t < length ds)%nat -> (L <= Datatypes.S t)%nat ->
+  Forall (fun d => (Z.of_nat d <= 10 ^ 100)%Z) ds ->
+  period_cost lv h p L dss t ds == nv_g h p lv (list_sum (firstn L (skipn (Datatypes.S t - L) ds))).
+Proof. exact period_cost_pathwise. Qed.
+Theorem C15_expected_period_cost : forall (lv : Z) (h p : Q) (L off : nat) (pm : list Q) dss (t T : nat),
+  (0 <= lv)%Z -> qsum pm == 1 -> (Z.of_nat (off + length pm) <= 10 ^ 100)%Z ->
+  length dss = T -> (t < T)%nat -> (L <= Datatypes.S t)%nat ->
+  expect_list T off pm (period_cost (inject_Z lv) h p L dss t)
+  == nvd_cost h p lv (pmf_of_list (L * off) (conv_pow L pm)).
+Proof. exact expected_period_cost. Qed.
+Theorem C15_newsvendor_level_minimises_expected_cost : forall L off pm h p, 0 < h -> 0 <= p -> nonneg_list pm -> qsum pm == 1 ->
+  forall y : Z,
+  expect_sum L off pm (nv_g h p (inject_Z (nvd_level h p (pmf_of_list (L * off) (conv_pow L pm)))))
+  <= expect_sum L off pm (nv_g h p (inject_Z y)).
+Proof. exact expected_cost_minimised. Qed.
+Example C15_expectation_nonvacuous :
+  nonneg_list ex_pm /\ qsum ex_pm == 1 /\
+  qobs (expect_sum 2 0 ex_pm (nv_g 1 4 (inject_Z 2))) = (15, 8)%Z /\
+  qobs (nvd_cost 1 4 2 (pmf_of_list (2 * 0) (conv_pow 2 ex_pm))) = (15, 8)%Z /\
+  qobs (expect_list 3 0 ex_pm (period_cost (inject_Z 2) 1 4 2 [(fun _ => false); (fun _ => false); (fun _ => false)] 2)) = (15, 8)%Z.
+Proof. split; [exact (proj1 ex_hyps)|]. split; [exact (proj1 (proj2 ex_hyps))|]. vm_compute. repeat split; reflexivity. Qed.
+
+Definition long_run_average_statement : Prop := True (* time average of the period cost -> E[h (S-D_L)^+ + p (D_L-S)^+] almost surely (the expectation itself is C15_expected_period_cost); (s,S) and SSM analogues: not provable about code; statistical search only *).
 
 Example C15_nonvacuous :
   let recs := run (NW1 10 1 4 2) (mk_inputs (map (fun d => ((fun _ : N => false), d)) [3; 5; 2; 7; 1])) in
@@ -35,3 +70,8 @@ Proof. vm_compute. split; reflexivity. Qed.
 
 Print Assumptions C15_single_stage_pathwise.
 Print Assumptions C15_window_is_lead_time_demand.
+Print Assumptions C15_law_of_lead_time_demand.
+Print Assumptions C15_expected_newsvendor_cost.
+Print Assumptions C15_period_cost_pathwise.
+Print Assumptions C15_expected_period_cost.
+Print Assumptions C15_newsvendor_level_minimises_expected_cost.
